@@ -244,7 +244,70 @@ def _replay_scheduler_project(sources, routines_cfg, enable_imports):
         shutil.rmtree(tmp, ignore_errors=True)
 
 
+CLI_SRC = {
+    'src/driver_mod.F90': "module driver_mod\n  implicit none\ncontains\n  subroutine driver(n, a)\n    use header_mod, only: jprb\n"
+                          "    use kernel_mod, only: kernel\n    integer, intent(in) :: n\n    real(kind=jprb), intent(inout) :: a(n)\n"
+                          "    call kernel(n, a)\n  end subroutine driver\nend module driver_mod\n",
+    'src/kernel_mod.F90': "module kernel_mod\n  implicit none\ncontains\n  subroutine kernel(n, a)\n    use header_mod, only: jprb\n"
+                          "    use util_mod, only: util\n    integer, intent(in) :: n\n    real(kind=jprb), intent(inout) :: a(n)\n"
+                          "    integer :: i\n    do i=1,n\n      call util(a(i))\n    end do\n  end subroutine kernel\nend module kernel_mod\n",
+    'HDR/header_mod.F90': "module header_mod\n  implicit none\n  integer, parameter :: jprb = selected_real_kind(13,300)\nend module header_mod\n",
+    'HDR/util_mod.F90': "module util_mod\n  implicit none\ncontains\n  subroutine util(x)\n    use header_mod, only: jprb\n"
+                        "    real(kind=jprb), intent(inout) :: x\n    x = 2.0_jprb * x\n  end subroutine util\nend module util_mod\n",
+}
+
+
+def replay_cli(inp):
+    """`loki-transform plan` and `loki-transform convert` (the real click commands) with identical arguments on a project
+    whose header lives inside / outside the --source tree: the plan's three lists against the files the conversion wrote"""
+    import re
+    import tomli_w
+    from click.testing import CliRunner
+    from loki.cli.loki_transform import cli
+    config = {'default': {'mode': 'idem', 'role': 'kernel', 'expand': True, 'strict': False, 'enable_imports': False},
+              'routines': {'driver': {'role': 'driver'}},
+              'transformations': {'Idem': {'classname': 'IdemTransformation', 'module': 'loki.transformations'}},
+              'pipelines': {'idem': {'transformations': ['Idem']}}}
+    for hdr_dir in ('src', 'common'):
+        tmp = Path(tempfile.mkdtemp(prefix='c24cli_', dir='/var/tmp')).resolve()
+        try:
+            for name, src in CLI_SRC.items():
+                f = tmp / name.replace('HDR', hdr_dir)
+                f.parent.mkdir(exist_ok=True)
+                f.write_text(src)
+            (tmp / 'build').mkdir()
+            (tmp / 'my.config').write_text(tomli_w.dumps(config))
+            plan = tmp / 'plan.cmake'
+            args = ['--mode=idem', '--config=%s/my.config' % tmp, '--frontend=fp', '--source=%s/src' % tmp,
+                    '--header=%s/%s/header_mod.F90' % (tmp, hdr_dir), '--build=%s/build' % tmp, '--root=%s' % tmp,
+                    '--log-level=error']
+            r1 = CliRunner().invoke(cli, ['plan'] + args + ['--plan-file=%s' % plan])
+            r2 = CliRunner().invoke(cli, ['convert'] + args)
+            setting = {'header_directory': hdr_dir, 'below_source_path': hdr_dir == 'src'}
+            if (r1.exit_code != 0) != (r2.exit_code != 0):
+                return {'reproduced': True, 'setting': setting, 'plan_exit': r1.exit_code, 'convert_exit': r2.exit_code,
+                        'plan_error': repr(r1.exception), 'convert_error': repr(r2.exception)}
+            if r1.exit_code != 0:
+                return {'reproduced': False, 'error': 'both commands fail: %r' % (r1.exception,)}
+            lists = {k: v.split() for k, v in re.findall(r'set\(\s*(\w+)\s*(.*?)\s*\)', plan.read_text(), re.S)}
+            written = sorted(p.name for p in (tmp / 'build').iterdir() if p.is_file())
+            planned = sorted(Path(p).name for p in lists.get('LOKI_SOURCES_TO_APPEND', []))
+            originals = sorted(n.replace('.idem.', '.') for n in written)
+            if written != planned:
+                return {'reproduced': True, 'setting': setting, 'written': written, 'LOKI_SOURCES_TO_APPEND': planned}
+            for key in ('LOKI_SOURCES_TO_TRANSFORM', 'LOKI_SOURCES_TO_REMOVE'):
+                got = sorted(Path(p).name for p in lists.get(key, []))
+                if got != originals:
+                    return {'reproduced': True, 'setting': setting, key: got, 'originals_of_written_files': originals}
+        finally:
+            shutil.rmtree(tmp, ignore_errors=True)
+    return {'reproduced': False, 'cases': 2}
+
+
 def main():
+    if sys.argv[1] == '--cli':
+        print(json.dumps(replay_cli({}), default=str))
+        return
     if sys.argv[1] == '--scheduler':
         print(json.dumps(replay_scheduler({}), default=str))
         return
